@@ -57,8 +57,7 @@ def main():
     finally:
         sh(["git", "-C", "/repo", "worktree", "remove", "--force", wt])
         shutil.rmtree(wt, ignore_errors=True)
-        # evidence written against the scratch tree is not evidence for /repo
-        sh(["git", "-C", ROOT, "checkout", "--", "evidence"])
+        # (runs with VERIF_REPO pointing at a scratch tree write their evidence under .build/evidence-scratch/)
     print(json.dumps(res))
     return 0
 
